@@ -27,7 +27,8 @@ RULE = (
     "primary, functions max min floor mod, redundant parentheses and spaces). Bindings: positive ints 1..64, "
     "complete and split in two for partial evaluation. Checks: evaluate(full) == exact reference; "
     "evaluate(part1) then evaluate(part2) == evaluate(full); simplify() preserves it; SymbolicDim(d.value) "
-    "(print->parse) preserves it; value-info serde round trip preserves it. Division by zero anywhere in the "
+    "(print->parse) preserves it; Shape.evaluate/Shape.simplify agree; evaluate under bindings restricted to "
+    "free_symbols() is complete; value-info serde round trip preserves it. Division by zero anywhere in the "
     "reference makes the case undefined (skipped, counted). Non-trivial = >=3 operators of >=2 kinds (ops) or "
     ">=2 precedence levels (text). distinct = distinct case JSON."
 )
@@ -36,9 +37,14 @@ ASSUMPTIONS = [
     "sqrt and ** are generated in text mode only with results that stay rational (small literal exponents)",
     "bindings are positive integers (dimension sizes)",
 ]
+CASE_TIMEOUT = 20  # SymPy's simplify() occasionally needs minutes on a nested floor/Mod/Max tree: inconclusive, not a verdict
 BUDGET = {"quick": (16, 1200), "thorough": (16, 20000)}
 
 SYMS = ["N", "M", "batch", "a.b", "seq_len"]
+# leaves built from a SymPy symbol (SymbolicDim accepts sympy.Expr): assumptions other than the parser's own
+FLAVOURS = {"plain": {}, "integer": {"integer": True}, "posint": {"integer": True, "positive": True},
+            "nonneg": {"integer": True, "nonnegative": True}}
+SYMX = ["N", "M", "batch", "K"]
 BIN = ["add", "sub", "mul", "floordiv", "truediv", "mod"]
 RBIN = ["add", "sub", "mul", "truediv"]  # int on the left supported
 
@@ -55,7 +61,11 @@ class Malformed(Exception):
 def strategy(tier, phase):
     from hypothesis import strategies as st
 
-    sym = st.sampled_from(SYMS).map(lambda s: ["sym", s])
+    sym = st.one_of(
+        st.sampled_from(SYMS).map(lambda s: ["sym", s]),
+        st.sampled_from(SYMS).map(lambda s: ["sym", s]),
+        st.tuples(st.sampled_from(SYMX), st.sampled_from(sorted(FLAVOURS))).map(lambda t: ["symx", t[0], t[1]]),
+    )
     small = st.integers(1, 9)
 
     def extend(children):
@@ -69,7 +79,7 @@ def strategy(tier, phase):
         )
 
     tree = st.recursive(sym, extend, max_leaves=10)
-    bind = st.fixed_dictionaries({s: st.integers(1, 64) for s in SYMS})
+    bind = st.fixed_dictionaries({s: st.integers(1, 64) for s in sorted(set(SYMS) | set(SYMX))})
     ops_case = st.fixed_dictionaries({"mode": st.just("ops"), "tree": tree, "bind": bind})
     text_case = st.fixed_dictionaries({"mode": st.just("text"), "text": _text_strategy(), "bind": bind})
     return st.one_of(ops_case, text_case)
@@ -95,7 +105,7 @@ def _text_strategy():
         call1 = st.tuples(st.just("floor"), e).map(lambda t: f"{t[0]}({t[1]})")
         return st.one_of(binop, binop, power, unary, call2, call1, paren(e))
 
-    return st.recursive(st.one_of(num, ident, ident), extend, max_leaves=8)
+    return st.recursive(st.one_of(num, ident, ident, ident, ident), extend, max_leaves=8)
 
 
 # ------------------------------------------------------------------------------------------------
@@ -108,7 +118,7 @@ def _fdiv(a, b):
 
 def ref_eval(tree, env):
     k = tree[0]
-    if k == "sym":
+    if k in ("sym", "symx"):
         return Fraction(env[tree[1]])
     if k == "int":
         return Fraction(tree[1])
@@ -145,7 +155,7 @@ def ref_eval(tree, env):
 
 
 def count_ops(tree, acc):
-    if tree[0] in ("sym", "int"):
+    if tree[0] in ("sym", "symx", "int"):
         return
     acc.append(tree[0])
     for c in tree[1:]:
@@ -153,7 +163,7 @@ def count_ops(tree, acc):
 
 
 def has_sym(tree):
-    if tree[0] == "sym":
+    if tree[0] in ("sym", "symx"):
         return True
     if tree[0] == "int":
         return False
@@ -165,6 +175,12 @@ def build(ir, tree):
     k = tree[0]
     if k == "sym":
         return ir.SymbolicDim(tree[1])
+    if k == "symx":
+        import sympy
+
+        if tree[1] not in SYMX or tree[2] not in FLAVOURS:
+            raise Malformed("symx")
+        return ir.SymbolicDim(sympy.Symbol(tree[1], **FLAVOURS[tree[2]]))
     if k == "int":
         return int(tree[1])
     if k in ("neg", "floor", "ceil", "trunc"):
@@ -301,6 +317,12 @@ def execute(case):
                 levels.add({"add": 1, "sub": 1, "mul": 2, "truediv": 2, "floordiv": 2, "mod": 2, "pow": 4, "neg": 3}.get(o, 5))
             nontrivial = len(levels) >= 2
             origin = "text"
+            # undefined texts (division by zero, power towers beyond the reference's range) are skipped before
+            # the library sees them: SymPy evaluates 2**3**3**3 eagerly at parse time, which takes minutes
+            try:
+                ref_eval(ref_tree, {k: bind.get(k, 1) for k in _syms(ref_tree)})
+            except (Undefined, OverflowError, ZeroDivisionError):
+                return dict(failures=[], nontrivial=False, classes=classes + ["undefined"])
             try:
                 d = ir.SymbolicDim(text)
                 d._expr  # force the parse
@@ -328,6 +350,8 @@ def execute(case):
     except (Malformed, KeyError, IndexError, TypeError):
         return dict(failures=[], nontrivial=False, classes=["malformed"])
 
+    if mode == "ops" and '"symx"' in __import__("json").dumps(case["tree"]):
+        classes.append("sympy_symbol_leaf")
     desc = case.get("text") if mode == "text" else f"tree {case['tree']} printed as {d.value!r}"
 
     def check(label, fn):
@@ -339,7 +363,7 @@ def execute(case):
             fails.append((f"{label}-exc/{origin}/{type(e).__name__}", f"{label} on {desc} with {bind}: {type(e).__name__}: {e}"[:400]))
             return
         if got != ref:
-            if _pure_sympy_disagrees(ref_tree, bind, ref):
+            if _pure_sympy_disagrees(ref_tree, bind, ref, got, label):
                 # SymPy alone (no onnx_ir code) already computes this tree wrongly: upstream root cause
                 fails.append((f"sympy-upstream/{_shape_of(ref_tree, d)}", f"{label} on {desc} with {bind}: library {got} != exact {ref}; plain SymPy with positive integer symbols gives the same wrong value"[:400]))
                 return
@@ -370,6 +394,24 @@ def execute(case):
     check("simplify", lambda: d.simplify().evaluate(bind))
     check("reparse", lambda: ir.SymbolicDim(d.value).evaluate(bind))
 
+    def _ev(x):
+        return x if isinstance(x, int) else x.evaluate(bind)
+
+    check("shape-evaluate", lambda: ir.Shape([d, 3]).evaluate(bind)[0])
+    check("shape-simplify", lambda: _ev(ir.Shape([3, d]).simplify()[1]))
+
+    def free_restricted():
+        # the symbols the dimension reports as free are exactly the ones a binding has to cover
+        fs = d.free_symbols()
+        extra = set(fs) - _syms(ref_tree)
+        if extra:
+            raise ValueError(f"free_symbols() reports {sorted(extra)} which the expression never mentions")
+        if set(ir.Shape([d, 1]).free_symbols()) != set(fs):
+            raise ValueError("Shape.free_symbols() differs from the dimension's")
+        return d.evaluate({k: bind[k] for k in fs})
+
+    check("free-symbols", free_restricted)
+
     def serde_rt():
         from onnx_ir import serde
 
@@ -388,11 +430,15 @@ def execute(case):
 
 
 def _pure_sympy(tree, syms):
+    """The same expression built with SymPy alone, mirroring how build() obtains it: operator by operator, and for
+    min/max through the textual form - i.e. every symbol below a min/max node is re-read as a positive integer."""
     import sympy
 
     k = tree[0]
     if k == "sym":
         return syms.setdefault(tree[1], sympy.Symbol(tree[1], integer=True, positive=True))
+    if k == "symx":
+        return syms.setdefault((tree[1], tree[2]), sympy.Symbol(tree[1], **FLAVOURS[tree[2]]))
     if k == "int":
         return sympy.Integer(tree[1])
     if k in ("neg", "floor", "ceil", "trunc"):
@@ -400,23 +446,46 @@ def _pure_sympy(tree, syms):
         return {"neg": lambda: -x, "floor": lambda: sympy.floor(x), "ceil": lambda: sympy.ceiling(x),
                 "trunc": lambda: sympy.sign(x) * sympy.floor(sympy.Abs(x))}[k]()
     a, b = _pure_sympy(tree[1], syms), _pure_sympy(tree[2], syms)
+    if k in ("min", "max"):
+        def reread(e):
+            rep = {}
+            for sy in e.free_symbols:
+                rep[sy] = syms.setdefault(str(sy), sympy.Symbol(str(sy), integer=True, positive=True))
+            return e.xreplace(rep).doit() if rep else e
+        a, b = reread(a), reread(b)
     return {"add": lambda: a + b, "sub": lambda: a - b, "mul": lambda: a * b, "truediv": lambda: a / b,
             "floordiv": lambda: sympy.floor(a / b), "mod": lambda: sympy.Mod(a, b), "min": lambda: sympy.Min(a, b),
             "max": lambda: sympy.Max(a, b), "pow": lambda: a ** b}[k]()
 
 
-def _pure_sympy_disagrees(tree, bind, ref):
-    """True iff SymPy by itself (symbols positive integers, then substitution) does not give `ref`."""
+def _pure_sympy_disagrees(tree, bind, ref, got=None, label="evaluate"):
+    """True iff SymPy by itself (no onnx_ir code: same symbols, same substitution sequence as the clause `label`
+    uses) does not give `ref` - and, when the library's value is known, gives that same wrong value."""
     import sympy
+
+    def frac(v):
+        v = sympy.nsimplify(v)
+        if not v.is_Rational:
+            return None
+        return Fraction(int(v.p), int(v.q))
 
     try:
         syms = {}
         e = _pure_sympy(tree, syms)
-        v = e.subs({sym: bind[name] for name, sym in syms.items()})
-        v = sympy.nsimplify(v)
-        if not v.is_Rational:
-            return False
-        return Fraction(int(v.p), int(v.q)) != ref
+        full = {sym: bind[str(sym)] for sym in set(syms.values()) | set(e.free_symbols)}
+        names = sorted(bind)
+        first = set(names[::2])
+        s1 = {sym: v for sym, v in full.items() if str(sym) in first}
+        s2 = {sym: v for sym, v in full.items() if str(sym) not in first}
+        values = [frac(e.subs(full))]
+        if label.startswith("partial"):
+            values.append(frac(e.subs(s1).subs(s2)))
+        if label.startswith(("simplify", "shape-simplify")):
+            values.append(frac(sympy.simplify(e).subs(full)))
+        wrong = [v for v in values if v is not None and v != ref]
+        if got is not None:
+            return any(v == got for v in wrong)
+        return bool(wrong)
     except Exception:
         return False
 
@@ -435,7 +504,7 @@ def _shape_of(tree, d):
 
 
 def _syms(tree):
-    if tree[0] == "sym":
+    if tree[0] in ("sym", "symx"):
         return {tree[1]}
     if tree[0] == "int":
         return set()
